@@ -10,6 +10,7 @@ THEOREMS = ["Vnc.C05_init", "Vnc.C05_mask_eq", "Vnc.C05_step", "Vnc.C05_invarian
             "Vnc.C05_clearBtn_testBit", "Vnc.C05_drag_zero", "Vnc.C05_drag_last", "Vnc.C05_drag_mask", "Vnc.C05_drag_points",
             "Vnc.C05_range", "Vnc.C05_drag_on_segment", "Vnc.C05_drag_in_box", "Vnc.C05_drag_monotone", "Vnc.C05_in_range", "Vnc.C05_wire", "Vnc.C05_sys_consistent", "Vnc.C05_sys_remembers"]
 TRUSTED = [
+    'VncSpec/PtrOrder.lean consistentFrom (the checker C05_sys_consistent is about) is evaluated by the driver on the pointer events of every history observed on the real client',
     "Lean 4.33 kernel; standard axioms only",
     "VncModel/Pointer.lean is tied to client.py mouseMove/mouseDown/mouseUp/mousePress/mouseDrag + rfb.pointerEvent by this correspondence run",
     "Python int bit operations (|, & ~) on non-negative ints and floor division as modelled; struct.pack('!BBHH')",
